@@ -21,7 +21,7 @@ RULE = ("seeded programs with one *subject* `until(n)` block (n in: delay, time 
         "beyond the end}. Non-trivial = trigger and completion both finite or the notification "
         "holds on entry; distinct = distinct (notification kind, relative order, event "
         "sequence).")
-BUDGET = {"quick": {"cases": 100000, "wall_s": 100, "chunk": 120},
+BUDGET = {"quick": {"cases": 100000, "wall_s": 240, "chunk": 120},
           "thorough": {"cases": 500000, "wall_s": 1500, "chunk": 300}}
 ASSUMPTIONS = ["setters and the observed task are top-level activities independent of the block, "
                "so their timeline is the same in the twin run",
